@@ -14,8 +14,10 @@ ENTRY, EXIT, RAISE = 0, 1, 2
 
 
 class CFG:
-    def __init__(self, fn: ast.FunctionDef | list[ast.stmt]):
+    def __init__(self, fn: ast.FunctionDef | list[ast.stmt], loop_body: bool = False):
+        """loop_body=True: `fn` is the body of a loop; top-level continue/break leave through EXIT"""
         self.fn = fn
+        self.loop_body = loop_body
         self.stmt: dict[int, ast.AST | None] = {ENTRY: None, EXIT: None, RAISE: None}
         self.kind: dict[int, str] = {ENTRY: "entry", EXIT: "exit", RAISE: "raise-exit"}
         self.succ: dict[int, list[int]] = {ENTRY: [], EXIT: [], RAISE: []}
@@ -127,6 +129,9 @@ class CFG:
             return []
         if isinstance(s, ast.Assert):
             self._link([(n, "F")], RAISE)
+        if isinstance(s, (ast.Break, ast.Continue)) and loop is None and self.loop_body:
+            self._link([(n, None)], EXIT)
+            return []
         if isinstance(s, ast.Break) and loop is not None:
             loop["breaks"].append((n, None))
             return []
